@@ -394,3 +394,25 @@ func Pub(d *big.Int) (x, y []byte) {
 	}
 	return Bytes32(p.X), Bytes32(p.Y)
 }
+
+// SmallXPoints returns the first n curve points whose x coordinate is a small integer (x = 0, 1, 2, ...): y is the
+// square root of x^3+ax+b computed as rhs^((p+1)/4) (p = 3 mod 4). Such points have x < 2^256-p, so x+p still fits
+// in 32 bytes: they are the witnesses for non-canonical coordinate encodings.
+func SmallXPoints(n int) []Point {
+	var out []Point
+	exp := new(big.Int).Add(P, big.NewInt(1))
+	exp.Rsh(exp, 2)
+	for x := int64(0); len(out) < n && x < 10000; x++ {
+		X := big.NewInt(x)
+		rhs := new(big.Int).Mul(X, X)
+		rhs.Mul(rhs, X)
+		rhs.Add(rhs, new(big.Int).Mul(A, X))
+		rhs.Add(rhs, B)
+		rhs.Mod(rhs, P)
+		y := new(big.Int).Exp(rhs, exp, P)
+		if new(big.Int).Exp(y, big.NewInt(2), P).Cmp(rhs) == 0 && OnCurve(X, y) {
+			out = append(out, Point{X: X, Y: y})
+		}
+	}
+	return out
+}
